@@ -131,6 +131,11 @@
 (declare-fun NYCases (Slice Int) Bool)
 ; the import declarations of a file after go-imports' Clean (abstract; assumed contract of the dependency)
 (declare-fun importsCleaned (Ref World) World)
+; the optimiser's two matcher-driven reductions and the printer, abstract (assumed contracts of trusted / external code)
+(declare-fun delayElided (World) World)
+(declare-fun etaReduced (World) World)
+(declare-fun printed (Ref World) World)
+(declare-fun fileUsesSeq (Ref) Bool)
 (declare-fun funcType (Ref) Iface)
 (declare-fun sigTParams (Ref) Ref)
 (declare-fun tplLen (Ref) Int)
